@@ -719,12 +719,14 @@ static void run_history(const char * path)
 }
 
 /* ---------- out-of-memory probe ------------------------------------------------------ */
+/* globals: still reachable for LeakSanitizer when the child calls exit(1) inside gc_alloc_any */
+static gc_mem * mem_copy;
+static mem_ptr * l0;
+static mem_ptr * l1;
+
 static int oomprobe(unsigned int size)
 {
     unsigned int i;
-    gc_mem * mem_copy;
-    mem_ptr * l0;
-    mem_ptr * l1;
     gc copy;
     int pfd[2];
     pid_t pid;
@@ -784,8 +786,20 @@ static int oomprobe(unsigned int size)
         _exit(0);
     }
     close(pfd[1]);
-    while (total < (ssize_t)sizeof(err) - 1 && (got = read(pfd[0], err + total, sizeof(err) - 1 - (size_t)total)) > 0)
-        total += got;
+    for (;;)
+    {
+        char drain[256];
+        if (total < (ssize_t)sizeof(err) - 1)
+        {
+            got = read(pfd[0], err + total, sizeof(err) - 1 - (size_t)total);
+            if (got > 0)
+                total += got;
+        }
+        else
+            got = read(pfd[0], drain, sizeof drain);     /* keep the child from getting SIGPIPE */
+        if (got <= 0)
+            break;
+    }
     err[total] = 0;
     close(pfd[0]);
     waitpid(pid, &status, 0);
